@@ -178,6 +178,8 @@ func removeKeyedOption(t, k string) godi.ModuleOption {
 	switch t {
 	case "S0":
 		return godi.RemoveKeyed[*S0](k)
+	case "I0":
+		return godi.RemoveKeyed[I0](k)
 	case "S1":
 		return godi.RemoveKeyed[*S1](k)
 	}
